@@ -4,11 +4,11 @@ import json
 
 CHECKS = {
     "C05": dict(
-        technique="TLA+ grammar (printer) vs code-shaped TLA+ parser model-checked by TLC; TLC-generated lines replayed into try_parse/iter; real try_parse calls on corpus lines validated by TLC trace spec",
+        technique="TLA+ grammar (printer) vs code-shaped TLA+ parser model-checked by TLC; TLC-generated lines replayed into try_parse/iter; real try_parse calls on corpus lines validated by TLC trace spec; whole corpus files (up to 29k lines) through the real iterator, validated item by item against the RecordIter state machine (stateful trace spec, position in the bytes as only state)",
         text="TLC enumerates every record AST of the documented grammar over small alphabets (all optional-part combinations, 5 terminators, 9 documented malformations), checks the code-shaped TLA+ parser against the declarative printer/denotation, and every enumerated line is replayed into the real parser; corpus and mutated lines are validated in the other direction.",
         design="4 C05", note="Bounded alphabets; corpus lines constrained only when the TLA+ printer reproduces them; trusted: TLC, Json module, harness encoder (canary-checked)."),
     "C06": dict(
-        technique="stream laws (declarative TLA+) model-checked on the code-shaped TLA+ parser for all strings within bounds; the same strings plus fuzzed/corpus inputs run through the real iterator and the recorded item streams validated by TLC against the laws",
+        technique="stream laws (declarative TLA+) model-checked on the code-shaped TLA+ parser for all strings within bounds; the same strings plus fuzzed/corpus inputs run through the real iterator and the recorded item streams validated by TLC against the laws; line fragments and F-cut generator (a line cut at every byte position followed by well-formed lines); whole corpus files in CRLF form through the RecordIter stateful trace spec",
         text="TLC enumerates every byte string (<=5 quick / <=6 thorough over 9 delimiter symbols) and every token string (<=4 / <=5 over 14 tokens incl. the sourceFile prefix), checks item count, no-terminator-in-field and the resynchronisation law at every LF split on the specification's parser; every string up to the emit bound and seeded byte soups, mutated files and corpus files are fed to the real iterator whose recorded item streams must satisfy the same TLA+ laws.",
         design="4 C06", note="L4 read on Ok records and non-blank error lines; bounded exhaustive + sampled; trusted: TLC, harness event recorder (canary-checked)."),
     "C19": dict(
@@ -16,19 +16,19 @@ CHECKS = {
         text="TLC checks the three code-shaped scanning machines against the declarative folds for every abstract item stream within the bound (window crossed exhaustively with Window=3), generates concrete files around the real 50-item window with last-header-wins and u32 min_api variants whose expected answers the folds assign, and validates the real answers for generated, mutated and corpus files against the folds applied to the item stream the library's own iterator yielded.",
         design="4 C19", note="Item abstraction recorded by the harness; parser behaviour itself is C05/C06. Trusted: TLC, Json module, harness (canary-checked)."),
     "C01": dict(
-        technique="declarative TLA+ index/answer (Index.tla, Retrace.tla); TLC enumerates small mapping files (entry alphabet x sourceFile contexts, 5 byte-level variants) with spec-assigned answers replayed into mapper, mapper+params and cache; real sessions (generated + corpus files, query universe) validated by TLC trace spec that parses the bytes itself",
+        technique="declarative TLA+ index/answer (Index.tla, Retrace.tla); TLC enumerates small mapping files (entry alphabet x sourceFile contexts, 5 byte-level variants) with spec-assigned answers replayed into mapper, mapper+params and cache; real sessions (generated + corpus files, query universe) validated by TLC trace spec that parses the bytes itself; cursor machine FrameIter.tla model-checked against the declarative answer and every next() call of the real iterators (incl. calls after exhaustion) validated step by step as an ordered log (stateful trace spec with deadlock = rejected line); handles obtained through From<&str>, From<(&str,bool)> and Clone are validated like the principal three",
         text="Exhaustive over single entries (8 ranges x 6 original ranges x 3 foreign classes x 3 file contexts) and bounded pairs, each in LF/CRLF/CR/noise/permuted variants, 9 lines incl. 2^32 and 2^64-1 extremes, file present/absent; plus seeded sessions over generated and corpus mappings where TLC re-derives every answer from the bytes.",
         design="4 C01", note="Bounded alphabets; sampled sessions. Trusted: TLC, Json module, harness encoders (canary-checked)."),
     "C02": dict(
-        technique="same TLA+ answer function as C01/C03/C04 used as the single reference for all three handles; TLC-generated files (blocks, sourceFile placement, adversarial names) replayed; real sessions validated by TLC",
+        technique="same TLA+ answer function as C01/C03/C04 used as the single reference for all three handles; TLC-generated files (blocks, sourceFile placement, adversarial names) replayed; real sessions validated by TLC; builder step machine (Builder.tla: class in progress, sourceFile register, per-class dedup set, one-record lookahead) model-checked against the declarative index in mapper and cache-writer variants, pinned valueless-header variant refuted",
         text="Mapper (with and without parameter index) and cache are each compared, query for query, with Retrace!Answer over the declarative index of the same bytes; any disagreement between two handles is therefore a rejected case or trace event.",
         design="4 C02", note="Stack-trace text/typed and signature agreement are exercised under C07/C08/C16. Bounded + sampled."),
     "C03": dict(
-        technique="declarative by-params view (non-inlined, first occurrence per class) in TLA+; TLC enumerates 2..3 class blocks x <=2 methods and all record sequences <=2/3 over a 31-letter alphabet; replay into mapper+params and cache; trace validation of real sessions",
+        technique="declarative by-params view (non-inlined, first occurrence per class) in TLA+; TLC enumerates 2..3 class blocks x <=2 methods and all record sequences <=2/3 over a 31-letter alphabet; replay into mapper+params and cache; trace validation of real sessions; Builder.tla cache variant model-checked (all record sequences <=4/6 over 7 letters), pinned offset variant refuted",
         text="Exhaustive over small multi-class files (repeated class names, inline pairs, duplicates across blocks, with/without ranges) with every (class, method, params) triple of the universe; seeded sessions validated by TLC.",
         design="4 C03", note="Bounded alphabets; trusted: TLC, Json module, harness (canary-checked)."),
     "C04": dict(
-        technique="declarative class/method lookup + coherence invariant in TLA+ (checked by TLC on every generated file); adversarial class-name sequences and record sequences replayed; trace validation incl. files with up to 180 near-identical class names",
+        technique="declarative class/method lookup + coherence invariant in TLA+ (checked by TLC on every generated file); adversarial class-name sequences and record sequences replayed; trace validation incl. files with up to 180 near-identical class names; binary search / range expansion / checked slicing of the cache reader as step machines (CacheReader.tla) model-checked on every key array <=7, sorted or not",
         text="All sequences of <=3 (quick) / <=4 class blocks over 9 adversarial obfuscated names (prefixes, $ and . variants, non-ASCII, duplicates) with 19 probe names incl. sort neighbours; coherence between method lookup and line frames is an invariant of the model; real sessions with hundreds of similar names validated by TLC.",
         design="4 C04", note="Bounded alphabets; trusted: TLC, Json module, harness (canary-checked)."),
     "C07": dict(
@@ -40,7 +40,7 @@ CHECKS = {
         text="All typed traces over {mapped, mapped with message, unmapped, other mapped} throwables x 5 frame kinds (resolve to 1, to 2, known method no entry, unknown class, no-range entry) up to depth 2 (quick) / 3 (thorough): exact result, preservation law and agreement of printed result with the text API on canonical traces.",
         design="4 C08", note="Canonical = top level has an exception or frame, cause levels have exceptions, frames carry files. Bounded + sampled."),
     "C16": dict(
-        technique="descriptor grammar/denotation (declarative) vs tokenizer index machine (operational) in Signature.tla, model-checked over all descriptors <=3 params; all single-edit corruptions classified into the three 'no result' classes; replay into mapper and cache; generated descriptors (0..6 params, Unicode) validated by TLC",
+        technique="descriptor grammar/denotation (declarative) vs tokenizer index machine (operational) in Signature.tla, model-checked over all descriptors <=3 params; all single-edit corruptions classified into the three 'no result' classes; replay into mapper and cache; generated descriptors (0..6 params, Unicode) validated by TLC; bounded-exhaustive token soups over ( ) L ; [ I V and multi-byte characters: no panic and mapper = cache",
         text="1554 valid descriptors (6 parameter types incl. class named I, ib/Long, nested non-ASCII arrays x 6 return types) exhaustively, single-character deletions/substitutions/insertions of those with <=1 (quick) / <=2 parameters, plus seeded descriptors and arbitrary Unicode strings where mapper = cache and the stated None classes are enforced.",
         design="4 C16", note="Strings outside the valid grammar and the three stated classes are only required to agree between mapper and cache."),
     "C17": dict(
@@ -48,7 +48,7 @@ CHECKS = {
         text="All traces over messages such as ': ', 'Caused by: x', 'at a.b(c:1)', classes with $ and non-ASCII, '<init>', lines 0 and 2^64-1, files '' and 'x(y)', depth <=3 (quick) / <=5, top-level exception present or absent; round trip of whole traces, single frames and throwables on the spec and on the implementation.",
         design="4 C17", note="Domain: StackTraceSyntax!TraceOk (top level carries an exception or a frame; see DESIGN section 6 item 7)."),
     "C09": dict(
-        technique="TLA+ decoder of the documented binary format (CacheFormat.tla: layout, WellFormed, Content) applied by TLC to the real bytes ProguardCache::write produced; decoded index compared with the declarative index of the mapping (CacheContent!SameIndex); layout arithmetic model-checked (MC_CacheParse)",
+        technique="TLA+ decoder of the documented binary format (CacheFormat.tla: layout, WellFormed, Content) applied by TLC to the real bytes ProguardCache::write produced; decoded index compared with the declarative index of the mapping (CacheContent!SameIndex); layout arithmetic model-checked (MC_CacheParse); cache files written by the specification's own writer (CacheWriter.tla, two string-table orders) checked WellFormed/SameIndex by TLC and read by the real reader; big-class and 3-byte-LEB128 string generators",
         text="For generated mappings (0..45 classes, member-less classes, shared/non-ASCII/>127-byte strings, noise) and corpus files, TLC decodes the written bytes itself and checks magic/version/counts, strict class order, exact tiling of member and by-params ranges in class order, intra-class order, 8-byte alignment with zero padding, string readability/sentinels, exact length, equality of the decoded index with Index!Blocks, and that the library self-test returned.",
         design="4 C09", note="Files are decoded whole by TLC (sizes up to a few 10 KB); sampled inputs. Trusted: TLC, Json module, harness byte recorder (canary-checked)."),
     "C11": dict(
@@ -56,7 +56,7 @@ CHECKS = {
         text="Exhaustive for shapes up to 2x2x2 entries and 5 string bytes (quick) / 3x3x3x9: every strict prefix rejected, stated error kinds for flipped/foreign magic, version, over-declared sections and strings; on real files every prefix of the first three files, sampled prefixes of the rest and 40+ single-field header edits each must produce exactly the outcome (kind, expected, found) ParseOutcome predicts.",
         design="4 C11", note="Since no strict prefix is accepted, the 'or answers like the full file' branch is vacuous and any acceptance is reported."),
     "C14": dict(
-        technique="trace validation: the same mapping written twice in-process, by 4 threads and by >=8 (quick) / 32 separately started processes; TLC checks all copies byte-identical and length = header-implied length (CacheFormat!ImpliedLength)",
+        technique="trace validation: the same mapping written twice in-process, by 4 threads and by >=8 (quick) / 32 separately started processes; TLC checks all copies byte-identical and length = header-implied length (CacheFormat!ImpliedLength); histories: writes after failed writes (sink failing at call i), after a panicking sink and after writes/reads of other mappings must reproduce the same bytes",
         text="Different processes have different hash seeds and addresses; any dependence of the output on HashMap/HashSet iteration order or uninitialised padding shows up as differing copies.",
         design="4 C14", note="Sampled mappings (generated + small corpus files). The writer model with nondeterministic container order is future work listed in DESIGN."),
     "C15": dict(
@@ -64,23 +64,23 @@ CHECKS = {
         text="Success implies the sink holds exactly the canonical bytes; a reported failure implies an error result and a prefix; every offered buffer is the next bytes of the canonical file.",
         design="4 C15", note="Canonical = what the same build writes into a Vec. Bounded exhaustive on the model, 88 policy schedules on a real one-class file, seeded policies on generated mappings."),
     "C10": dict(
-        technique="history model of releases/files (CacheHistory.tla) model-checked: agreement holds iff equal version implies equal layout (the undisciplined variant must be refuted); the pinned 5.5.0 sources linked as crate proguard_pinned next to the current tree, all (writer, reader) pairs over generated/corpus mappings, recorded disagreements validated by TLC (RecordedAgreement)",
+        technique="history model of releases/files (CacheHistory.tla) model-checked: agreement holds iff equal version implies equal layout (the undisciplined variant must be refuted); the pinned 5.5.0 sources linked as crate proguard_pinned next to the current tree, all (writer, reader) pairs over generated/corpus mappings, recorded disagreements validated by TLC (RecordedAgreement); a third writer: cache files serialised by the specification (CacheWriter.tla) are read by the current reader and must be answered per Retrace!Answer",
         text="For every mapping both releases write a cache; both readers parse both files and answer 60..120 queries each (class, method, frames by line/params, throwable, text trace, signature); a file must be rejected with WrongVersion by one of them or answered identically by both.",
         design="4 C10", note="pinned/proguard-5.5.0 is a verbatim copy (git show f3fcb84:src/...). Sampled mappings in the stated domain."),
     "C12": dict(
-        technique="machine-integer model of the cache reader's line arithmetic over ALL field values at small width (MC_LineArith; the unchecked pinned variant must be refuted); F-field corruptions of real caches (boundary values into any u32 field, record swaps, bit flips, string/LEB128/UTF-8 damage, random bodies, header counts) probed with the full query surface under catch_unwind; completion and pointer provenance of every returned string validated by TLC",
+        technique="machine-integer model of the cache reader's line arithmetic over ALL field values at small width (MC_LineArith; the unchecked pinned variant must be refuted); F-field corruptions of real caches (boundary values into any u32 field, record swaps, bit flips, string/LEB128/UTF-8 damage, random bodies, header counts) probed with the full query surface under catch_unwind; completion and pointer provenance of every returned string validated by TLC; exhaustive single-field boundary edits of every record of small files; CacheReader.tla step machines (binary search, range expansion, checked slicing) model-checked on unsorted arrays for bounds and termination",
         text="Every accepted corrupted buffer must let class/method/frame (line, file, params; lines 0, 2^31, 2^32-2..2^32, 2^64-1)/throwable/text+typed trace/signature/Debug queries return, and every returned &str must point into the buffer or the query.",
         design="4 C12", note="Memory safety of the two unsafe Pod casts is observed only through results. Sampled corruptions (1.4k quick / 7k thorough buffers)."),
     "C13": dict(
-        technique="MC_LineArith for mapper and cache (unchecked variants refuted, saturating variants clean at small width); wild sessions (byte soups, mutated files, grammar with numbers around 2^32 and 2^64, empty names, invalid UTF-8) driven through mapper x2, cache write+parse, queries with extreme lines, arbitrary Unicode trace/signature text; TLC trace spec requires every call to complete and in-domain answers to equal Retrace!Answer",
+        technique="MC_LineArith for mapper and cache (unchecked variants refuted, saturating variants clean at small width); wild sessions (byte soups, mutated files, grammar with numbers around 2^32 and 2^64, empty names, invalid UTF-8) driven through mapper x2, cache write+parse, queries with extreme lines, arbitrary Unicode trace/signature text; TLC trace spec requires every call to complete and in-domain answers to equal Retrace!Answer; bounded-exhaustive token soups (all strings of <=5/6 tokens over the delimiters and multi-byte characters) through signature and stack-trace entry points, summarised per API",
         text="Harness built with overflow checks: a wrapping overflow is a panic and is recorded as data; any panic or Err from build/write/parse/query rejects the trace.",
         design="4 C13", note="Sampled inputs (90 quick / 400 thorough sessions x 60 queries + 24 other API calls each)."),
     "C18": dict(
-        technique="UUIDv5 / SHA-1 transcribed into TLA+ (spec/lib/Sha1.tla with 16-bit half words + Bitwise, spec/Uuid.tla) and evaluated by TLC on the exact bytes of every recorded ProguardMapping::uuid call; repeats in 3 other processes must agree",
+        technique="UUIDv5 / SHA-1 transcribed into TLA+ (spec/lib/Sha1.tla with 16-bit half words + Bitwise, spec/Uuid.tla) and evaluated by TLC on the exact bytes of every recorded ProguardMapping::uuid call; repeats in 3 other processes must agree; identifiers of section() sub-mappings taken before/after the parent's uuid() call and of clones; normalisation probes (BOM, leading/trailing white space and terminators, NUL, every single byte)",
         text="Empty input, SHA-1 block-boundary lengths (55/56/64/119/120), corpus prefixes in LF and CRLF form, random bytes; expected value computed by TLC only.",
         design="4 C18", note="Function transcription, not state exploration; inputs up to 8 KiB (quick) / 256 KiB (thorough), below the statement's 1 MiB."),
     "C20": dict(
-        technique="Sharing.tla (thread-local cursors over an immutable handle) model-checked for all interleavings, shared-cursor variant refuted; Send+Sync asserted by rustc on 16 public types (harness/sendsync); 2..16 threads behind a barrier query one shared mapper / mapper+params / parsed cache, per-thread sequence numbers, every event validated by TLC against Retrace!Answer",
+        technique="Sharing.tla (thread-local cursors over an immutable handle) model-checked for all interleavings, shared-cursor variant refuted; Send+Sync asserted by rustc on 16 public types (harness/sendsync); 2..16 threads behind a barrier query one shared mapper / mapper+params / parsed cache, per-thread sequence numbers, every event validated by TLC against Retrace!Answer; typed/text/signature APIs from 16 threads with cause chains of depth 8..14, every call repeated 150 (quick) / 300 times, unstable results recorded and rejected by TLC",
         text="Each concurrent query must return exactly the single-threaded declarative answer.",
         design="4 C20", note="Auto traits are decided by the Rust type checker, not TLC; interleavings are those the OS scheduler produces."),
 }
